@@ -1,5 +1,6 @@
 SPECIFICATION TSpec
 CONSTANT MaxV = 0
 CONSTANT M0s = {}
+CONSTANT MaxUses = 1
 CONSTANT PinnedDedup = FALSE
 CHECK_DEADLOCK FALSE
